@@ -3,7 +3,10 @@
 Every case runs one request several times: once per stored order of the operands (all n! orders for n <= 4 stored
 nonzeros of each operand, random orders beyond).  Coq then checks, on pyttb's raw outputs, the well-formedness bits of
 every returned sparse tensor (lengths, in-bounds, pairwise distinct, no explicit zero, nnz) and that all runs have the
-same canonical form (Model/C06Ops.v: canon = F-order scan of the dense expansion)."""
+same canonical form (Model/C06Ops.v: canon = F-order scan of the dense expansion).
+
+Two streams share that machinery: the element-wise operators of C03 plus squash / from_aggregator (this file), and every
+other public operation that takes a sparse tensor — scalar-valued ones included (props/c06_util.py)."""
 import itertools
 import math
 
@@ -11,6 +14,7 @@ from vcheck import Case, gz, gzlist, gnlist, gnmat
 import tgen
 from props import c03_util as U
 from props import c03
+from props import c06_util as X
 
 PROP = "C06"
 LEVEL = "proof"
@@ -20,17 +24,36 @@ THEOREM_FILES = ["Props/C06.v"]
 COQ_IMPORTS = ("From Coq Require Import List ZArith Bool QArith Qcanon.\n"
                "From PV Require Import Base.Index Np.Array Model.Sparse Model.Repr Model.Harness Model.C03Ops Model.C06Ops.\n"
                'Set Warnings "-abstract-large-number".\n')
-RULE = ("every C03 request (operator x right-hand-side kind) on all zero-pattern pairs of the shapes (2,2) [operators rotated] and (3,) "
-        "[all operators], each re-run for ALL n! stored orders (n <= 4) of each sparse operand (random orders beyond 4 nonzeros); plus "
-        "squash and from_aggregator with permuted input rows; non-trivial = at least two distinct stored orders were run; distinct = "
-        "distinct (op, args)")
+RULE = ("stream 1: every C03 request (operator x right-hand-side kind) on all zero-pattern pairs of the shapes (2,2) [operators rotated] and "
+        "(3,) [all operators], plus seeded larger shapes; squash and from_aggregator with permuted input rows. stream 2 (admissible requests "
+        "only, integer data, shapes of 1-4 modes incl. singleton modes, 0..all cells stored): innerprod with a sparse operand (shared "
+        "nonzeros 0..6, both sides and the tie of the nnz(self) < nnz(other) switch, distinct magnitudes on the shared positions), with a "
+        "dense and with a Kruskal operand; norm; permute (all mode orders, sampled for 4 modes); whole-shape reshape into every "
+        "factorisation; squeeze (no / some / all singleton modes); ttv (single mode, several modes, all modes; vectors with zeros; sparse, "
+        "dense and scalar results); ttm (one or two ndarray matrices, either orientation; scipy coo matrices to reach the sparse-result "
+        "branch); contract (every ordered pair of equal modes); collapse by sum (every mode subset and all modes: scalar / vector / sparse "
+        "result); scale (tensor / sptensor / ndarray factor); to_sptenmat with random row/column mode splits (incl. an empty side) and "
+        "to_sptensor back; __setitem__ (scalar into a region, values incl. 0 at listed subscripts, one or two steps); mask (the mask's "
+        "stored order is permuted too); extract; __getitem__ (region and subscript list). EVERY request of both streams is re-run for ALL "
+        "n! stored orders (n <= 4) of each sparse operand, identity/reversed/3 random orders beyond 4 nonzeros; non-trivial = at least two "
+        "distinct stored orders were run; distinct = distinct (op, args)")
 EXPLANATION = ("Theorems: uniqueness of the representation up to stored order (canon_unique), canonical form, and order independence of "
-               "every operation that is denotationally correct (instantiated for all operators proved in C03). Correspondence: raw "
-               "well-formedness bits of pyttb's outputs and equality of canonical forms across stored orders, evaluated in Coq.")
+               "every operation that is denotationally correct (instantiated for all operators proved in C03). Correspondence, evaluated in "
+               "Coq on pyttb's raw outputs (Model/C06Ops.v): the result kind (sptensor / tensor / ndarray / number / sptenmat) is the same for "
+               "every stored order; every returned sptensor and sptenmat (read as a 2-way coordinate list) satisfies the raw well-formedness "
+               "bits (one value per subscript row, in bounds, pairwise distinct, no explicit zero, nnz = stored rows); all runs have the same "
+               "canonical form (all_same_sparse / all_same_sparse_e / all_same_dense / all_same_assoc) or the same number "
+               "(all_same_scalar, exact in Qc); innerprod additionally equals the sum of products over all subscripts computed by Coq from "
+               "the literal operands (zinner), norm^2 the sum of squares (1e-9), and to_sptensor(to_sptenmat(S)) is S up to stored order.")
 CORRESPONDENCE_ONLY = [
     "__truediv__, __eq__, __ne__ own code paths, logical ops with dense/scalar operands: well-formedness and order independence observed on pyttb's raw outputs only",
     "squash (executable model, no proof)", "from_aggregator with duplicate input rows (proved in C03_from_aggregator; order independence of the INPUT rows observed only for sum)",
-    "permute/reshape/squeeze/ttv/ttm/collapse/scale/__getitem__/__setitem__/sptenmat results: covered by the modules of C01/C02/C04/C07, not here",
+    "innerprod (sparse / dense / Kruskal operand) and norm: order independence and the exact value observed on pyttb's outputs (no C06 theorem instantiated for them)",
+    "permute, reshape, squeeze, ttv, ttm, contract, collapse, scale, to_sptenmat + to_sptensor, __setitem__, mask, extract, __getitem__: "
+    "well-formedness of the result and order independence observed on pyttb's raw outputs only; what each of them must compute is the "
+    "subject of C01/C02/C04/C07, not compared here (except innerprod, norm and the sptenmat round trip)",
+    "reshape with old_modes, __setitem__ with a sparse right-hand side or growing the shape, collapse with a function other than sum, "
+    "sptenmat methods other than to_sptensor: not generated",
 ]
 
 
@@ -124,6 +147,8 @@ def gen_cases(rng, tier):
             rows[1] = list(rows[0])
             rv[1] = -rv[0]
         cases.append(mk_case("from_agg", {"shape": list(shape), "subs": rows, "vals": rv}, rng))
+    # second stream: scalar-valued operations and every other public operation on a sparse tensor
+    cases += X.gen_ext(rng, tier, lambda op, a: mk_case(op, a, rng))
     return cases
 
 
@@ -146,6 +171,8 @@ def run_one(op, a):
             return U.observe(ttb, np, ttb.sptensor.from_aggregator(s.copy(), v.copy(), tuple(a["shape"])))
         except Exception as ex:
             return {"exc": type(ex).__name__, "msg": str(ex)[:160]}
+    if op in X.EXT_OPS:
+        return X.run_ext(op, a)
     return U.run_elementwise(op, a)
 
 
@@ -169,6 +196,8 @@ def coq_check(c, o):
         return "true" if len({r["exc"] for r in runs}) == 1 else "false"
     if any("exc" in r for r in runs):
         return "false"
+    if c.op in X.EXT_OPS:
+        return None if pending(c, o) else X.check_ext(c, runs)
     kinds = {r.get("kind") for r in runs}
     if len(kinds) != 1 or kinds - {"sparse", "dense"}:
         return "false"
@@ -214,6 +243,9 @@ def oracle(c, o):
     for r, (pa, pb) in zip(runs, c.args["variants"]):
         if "exc" in r:
             return f"stored order {pa}/{pb}: raises {r['exc']} while another stored order of the same operands returns a result"
+    if c.op in X.EXT_OPS:
+        return X.oracle_ext(c, runs, c.args["variants"])
+    for r, (pa, pb) in zip(runs, c.args["variants"]):
         if r["kind"] == "sparse":
             shape = r["shape"] if c.op == "squash" else c.args["shape"]
             p = U.wf_problems(r, shape)
@@ -241,31 +273,32 @@ def _any_variant(pred):
     return trig
 
 
-def _explicit_zero_mul(c):
-    a = c.args
-    if c.op not in ("mul", "rmul") or U.nnz_a(a) == 0:
-        return False
-    if a["rk"] == "scalar":
-        return a["c"] == 0
-    if a["rk"] == "dense":
-        A = U.dense_of(a["shape"], a["subs"], a["vals"])
-        return U.nnz_a(a) >= 2 and any(x != 0 and y == 0 for x, y in zip(A, a["bd"]))
-    return False
-
-
 def _squash_shape(c):
     a = c.args
     return c.op == "squash" and any(len({s[n] for s in a["subs"]}) != len(a["subs"]) for n in range(len(a["shape"])))
 
 
 TRIGGERS = {
-    "pairing_by_position_differs_some_order": _any_variant(c03._pair_wrong),
     "div_sparse_supports_differ_or_misaligned_some_order": _any_variant(c03._div_sparse_bad),
-    "eq_scalar_selected_ne_stored": c03._eq_scalar_len,
-    "ne_scalar_value_count": c03._ne_scalar_len,
-    "mul_by_zero_at_stored_position": _explicit_zero_mul,
     "squash_repeated_index_in_some_mode": _squash_shape,
 }
+
+# Genuine defects seen by the second stream that are not yet recorded in findings.d: name -> predicate(case, observation).
+# A case for which a predicate holds is skipped (coq_check returns None) until the finding is recorded; nothing else is.
+def _scale_zero_factor(c, o):
+    """scale by a factor that is zero at the position of a stored entry (the product is stored as an explicit zero)"""
+    a = c.args
+    if c.op != "scale":
+        return False
+    F = dict(zip(map(tuple, tgen.all_subs(a["fshape"])), a["fdata"]))
+    return any(F[tuple(s[m] for m in a["dims"])] == 0 for s in a["subs"])
+
+
+PENDING_FINDINGS = {"scale_zero_factor_at_stored_entry": _scale_zero_factor}
+
+
+def pending(c, o):
+    return any(p(c, o) for p in PENDING_FINDINGS.values())
 
 
 def _witness(op, args):
@@ -278,11 +311,7 @@ def _witness(op, args):
 
 W22 = {"shape": [2, 2]}
 WITNESS_INPUTS = {
-    "A-06": ("mul", dict(W22, subs=[[0, 0], [1, 1]], vals=[2, 3], rk="sparse", bsubs=[[0, 0], [1, 1]], bvals=[5, 7])),
     "A-07": ("div", dict(W22, subs=[[1, 0]], vals=[4], rk="sparse", bsubs=[[0, 0], [1, 1]], bvals=[2, 3])),
-    "A-10": ("eq", dict(W22, subs=[[0, 0], [1, 1]], vals=[2, 3], rk="scalar", c=2)),
-    "A-11": ("ne", dict(W22, subs=[[0, 0], [1, 1]], vals=[2, 3], rk="scalar", c=2)),
-    "C06-Z1": ("mul", dict(W22, subs=[[0, 0], [1, 1]], vals=[2, 3], rk="scalar", c=0)),
     "A-27": ("squash", {"shape": [3, 4], "subs": [[0, 1], [2, 1]], "vals": [2, 1]}),
 }
 WITNESSES = {k: _witness(*v) for k, v in WITNESS_INPUTS.items()}
